@@ -575,6 +575,12 @@ pub fn replay_net(ctx: &NetCtx, c: &Value, rep: &mut Report) {
             for (qi, q) in ctx.reqs.iter().enumerate() {
                 let req = match Request::new(&q.url, &q.src, &q.alias) {
                     Ok(r) => r,
+                    // a URL without an authority ('data:...') reaches the engine through Request::preparsed only
+                    Err(_) if !q.url.contains("://") && q.url.contains(':') => {
+                        let src_host = Request::new(&q.src, "", "").map(|s| s.hostname).unwrap_or_default();
+                        rep.count("opaque_scheme_requests");
+                        Request::preparsed(&q.url, "", &src_host, &q.alias, true)
+                    }
                     Err(_) => {
                         rep.skipped += 1;
                         if label.is_empty() { first.push(None); }
